@@ -628,6 +628,34 @@ func (w *W) genFillThenBlank(fn inputFn) {
 	}
 }
 
+// genBlankRunInString: strings (values and keys) that hold a run of 64..200 blanks, i.e. at least one
+// 64-byte block that lies wholly inside a string and consists of white-space bytes only, with a raw
+// TAB, LF or CR (invalid inside a string) or a plain space (valid) somewhere inside the run, away
+// from its edges; every start offset. Also the same runs outside strings (always valid).
+func (w *W) genBlankRunInString(fn inputFn) {
+	i := 0
+	for s0 := 0; s0 < 64; s0 += 3 {
+		for _, L := range []int{64, 90, 127, 128, 200} {
+			for _, c := range []byte{'\t', '\n', '\r', ' '} {
+				for _, p := range []int{L / 2, L - 2, 1} {
+					i++
+					if !w.mine(i) {
+						continue
+					}
+					run := strings.Repeat(" ", p) + string(c) + strings.Repeat(" ", L-p-1)
+					if i%4 == 0 {
+						run = strings.ReplaceAll(run, " ", string(c)) // the whole run of that byte
+					}
+					pad := strings.Repeat("x", s0)
+					fn("blank-run-in-string", []byte(`["`+pad+run+`y",1]`))
+					fn("blank-run-in-key", []byte(`{"`+pad+run+`":"`+pad+`"}`))
+					fn("blank-run-outside", []byte(`["`+pad+`",`+run+`1]`))
+				}
+			}
+		}
+	}
+}
+
 func fillStep(w *W) int {
 	if w.thorough() {
 		return 1
